@@ -34,12 +34,44 @@ def bounds(tier):
 PROBES = ['MSC_mach_vm_protect_trap', 'MSC_mach_port_guard_trap', 'BSC_read', 'BSC_mmap']
 
 
+PROBE_WORDS = [(0x1503, 2, 0x303, 0x404), (11, 1, 13, 14), (7, 3, 9, 8), (5, 4, 6, 0x1f), (0x21, 5, 0x23, 0x24), (3, 0, 2, 1)]
+
+
+class _ProbeCtx:
+    symbolic = False
+
+    def template(self, s):
+        return [s]
+
+
+def numeric_positions(name):
+    """positions of the call at which SOME concrete probe shows its (non-zero) word as a number: there the decoder renders
+    the argument numerically, so a bare 0 at such a position claims that the word is 0"""
+    out = set()
+    for w in PROBE_WORDS:
+        try:
+            o = sweep.run_window(_ProbeCtx(), name, list(w), [0, 0, 0, 0])
+        except BaseException:       # noqa
+            continue
+        if o.kind != 'text':
+            continue
+        cs = sweep.split_call([o.text])
+        if not cs.ok:
+            continue
+        for k, par in enumerate(cs.params[:4]):
+            txt = ''.join(sweep.strip_comments(par)).strip()
+            if w[k] != 0 and txt in (str(w[k]), hex(w[k])):
+                out.add(k)
+    return sorted(out)
+
+
 def structures(tier):
     sts = []
+    numpos = {n: numeric_positions(n) for n in sweep.decoder_names()}
     for n in sweep.decoder_names():
         if tier == 'thorough' or n.startswith('MSC_') or sweep.weight({'name': n}) == 1 and sum(n.encode()) % 4 == 0:
             sts.append({'name': n, 'kind': 'history'})
-        sts.append({'name': n, 'lookups': 1, 'len': 3})
+        sts.append({'name': n, 'lookups': 1, 'len': 3, 'numpos': numpos[n]})
         if tier == 'thorough' or n in PROBES or sum(n.encode()) % 16 == 0:
             sts.append({'name': n, 'kind': 'lost-end'})
         sts.append({'name': n, 'lookups': 0, 'pre': True})       # the parser tables in an arbitrary state
@@ -148,7 +180,7 @@ def run(ctx, st):
                 # a constant chosen on this path (e.g. '-1' for an id of 0xffffffff): the path condition must pin the word
                 # to a value that renders that way; a bare 0 stands for 'nothing set' in flag positions and is not judged
                 v = int(core[0], 0)
-                if v != 0:
+                if v != 0 or k in st.get('numpos', ()):
                     ctx.check('%s/pos%d' % (L, k), _admits(z3.BitVecVal(v, W), a[k]),
                               'position %d shows the constant %s' % (k, core[0]))
             nums = [at for at in sweep.atoms_of(core) if at.is_numeric()]
